@@ -69,6 +69,12 @@ add('C11',
     'Trusts that the activity analysis records every binding construct (C08 decides that) and that ag__ is the only injected alias; does not run differential tests.',
     'DESIGN.md section 4, C11')
 
+add('C03',
+    'template model of the three control-flow templates and the state-function templates (placeholder provenance, generated def signatures), reaching definitions linking the names tuple / getter list / setter targets to one list value, callback-event automata of the operator fallbacks for callback arities and of ldu against its reference language (DFA equivalence), set-algebra formulas of _get_block_vars for nouts bounds, CFG path counting for annotation carry-over',
+    'Decides statically, for every operator call the converter can emit: names tuple, getter tuple and setter targets are order-preserving filter-free images of one list; getter is a single return, setter one assignment to the same targets, composites read through ldu whose event language is value-or-Undefined on exactly KeyError/AttributeError/NameError; callback parameter counts equal the arities the fallbacks call them with and the documented ones; every positional argument of ag__.if_stmt/while_stmt/for_stmt/if_exp is the placeholder of the matching role and counts agree with the operator definitions; nouts = len(state)-len(input_only) with input_only a subset of state and the sort key built on the same set; iterate_names appended in lock step; loop options come from the node\'s own directives; rebuilt loops keep their annotations.',
+    'Does not decide run-time values of composite state; trusts templates.replace to substitute placeholders positionally as written.',
+    'DESIGN.md section 4, C03')
+
 NOT_APPLICABLE = {
     'C12': 'quantifies over run-time tracebacks, generated line layout and source-map contents, which exist only after the pipeline has run on a program; the only shape-level clause (exception re-creation table) is too small a part to claim the property through (DESIGN.md section 5)',
 }
